@@ -144,7 +144,7 @@ pub open spec fn read_all_ok(p: Map<Seq<u8>, PairInfoRaw>, keys: Seq<Seq<u8>>, o
         /*[C17 decimals.reaches-all]*/ r is Ok && registry_wf(old(deps.storage).pairs@) && old(deps.storage).allow@.dom().contains(str_bytes(denom@)) ==>
             final(deps.storage).pairs@.dom() == old(deps.storage).pairs@.dom()
             && (forall|k: Seq<u8>| #[trigger] old(deps.storage).pairs@.dom().contains(k) ==> dec_updated(old(deps.storage).pairs@[k], denom@, decimals, final(deps.storage).pairs@[k])),
-        /*[C17 decimals.first-registration-touches-nothing]*/ r is Ok && !old(deps.storage).allow@.dom().contains(str_bytes(denom@)) ==>
+        /*[C17,C07 decimals.first-registration-touches-nothing]*/ r is Ok && !old(deps.storage).allow@.dom().contains(str_bytes(denom@)) ==>
             final(deps.storage).pairs@ == old(deps.storage).pairs@ && r->Ok_0.msgs().len() == 0,
         /*[C14,C17 decimals.frame]*/ final(deps.storage).config == old(deps.storage).config && final(deps.storage).tmp == old(deps.storage).tmp,
 //%%insert before #1 /\/\/ If the native token is already exist, then update the decimals for the existing pairs/
@@ -162,8 +162,8 @@ pub open spec fn read_all_ok(p: Map<Seq<u8>, PairInfoRaw>, keys: Seq<Seq<u8>>, o
                 deps.storage.allow@ == old(deps.storage).allow@.insert(str_bytes(denom@), decimals),
                 /*[C17 decimals.loop.dom]*/ wf ==> deps.storage.pairs@.dom() == p0.dom(),
                 /*[C17 decimals.loop.done]*/ wf ==> forall|j: int| 0 <= j < it.index@ ==> dec_updated(p0[#[trigger] keys[j]], denom@, decimals, deps.storage.pairs@[keys[j]]),
-                /*[C17 decimals.loop.msg-count]*/ wf ==> messages@.len() == told.len(),
-                /*[C17 decimals.loop.msg-content]*/ wf ==> forall|mi: int| 0 <= mi < told.len() ==> 0 <= #[trigger] told[mi] < it.index@ && touches(p0[keys[told[mi]]], denom@)
+                /*[C17,C07 decimals.loop.msg-count]*/ wf ==> messages@.len() == told.len(),
+                /*[C17,C07 decimals.loop.msg-content]*/ wf ==> forall|mi: int| 0 <= mi < told.len() ==> 0 <= #[trigger] told[mi] < it.index@ && touches(p0[keys[told[mi]]], denom@)
                     && upd_msg(human_of(p0[keys[told[mi]]].contract_addr.0@), denom@, deps.storage.pairs@[keys[told[mi]]].asset_decimals, messages@[mi]),
                 /*[C17 decimals.loop.msg-complete]*/ wf ==> forall|j: int| 0 <= j < it.index@ && touches(p0[#[trigger] keys[j]], denom@) ==> told.contains(j),
                 /*[C17 decimals.loop.todo]*/ wf ==> forall|j: int| it.index@ <= j < pis0.len() ==> deps.storage.pairs@[#[trigger] keys[j]] == p0[keys[j]],
